@@ -330,7 +330,11 @@ def resolve_loops(ob, slot_dir, logdir, env):
     for m in re.finditer(r"^Loop (\S+):\n\s+file .*? function (.*)$", out, re.M):
         lid, fn = m.group(1), m.group(2)
         for pat, bound in ob["loops"].items():
-            if pat in fn or pat in lid:
+            # "name#k": only the k-th loop of the functions matching name
+            name, _, num = pat.partition("#")
+            if num and not lid.endswith("." + num):
+                continue
+            if name in fn or name in lid:
                 res[lid] = max(bound, res.get(lid, 0))
     # recursion bounds: `--unwindset <function id>:<n>` bounds the recursion depth of that function
     # (CBMC checks it with a recursion unwinding assertion); ids are mangled, looked up by pretty name
